@@ -245,6 +245,9 @@ func GetKeyFields(fields []string) (allFields []string, nonRootFields []string) 
 
 	for _, field := range fields {
 		switch {
+		case field == "":
+			// An empty name passes validation; it has no prefix to inspect.
+			nonRootFields = append(nonRootFields, field)
 		case field[0] == RootPrefixFirstChar && strings.HasPrefix(field, RootPrefix):
 			// If the field starts with "root.", add it to rootFields
 			rootFields = append(rootFields, field[len(RootPrefix):])
